@@ -109,7 +109,8 @@ def stepped_task(task, wdir, res):
     node = lt.start()
     res.count("tasks")
     witness = {"mode": "stepped", "seed": task["seed"], "config": cfg, "point": P}
-    sig = {"mode": "stepped", "point": P, "group": P.split(".")[0]}
+    # with several shards only the first flush worker to reach P is parked; the others keep flushing while the reads run
+    sig = {"mode": "stepped", "point": P, "group": P.split(".")[0], "other_shards_flushing": cfg["shard_count"] > 1}
     try:
         must_ok(node.cmd('DEFINE ev FIELDS { k: "int", v: "string" }'), "define")
         acked = {}
